@@ -11,31 +11,46 @@ def mpath(name):
     return os.path.join(MODELS, name)
 
 
+CONFIG = {'en': 'config_en.jsonnet', 'ja': 'config_ja.jsonnet', 'en_rebank': 'config_rebank.jsonnet'}
+
+
+def _table(which, field, own_file):
+    """a table of a configuration, read the way the library reads it: as a field of the configuration file (which
+    imports or inlines it); the table's own file is only a fallback"""
+    try:
+        return jsonnet_lite.get_field(mpath(CONFIG[which]), field)
+    except jsonnet_lite.JsonnetError:
+        if own_file and os.path.exists(mpath(own_file)):
+            return jsonnet_lite.get_field(mpath(own_file), field)
+        raise
+
+
 @functools.lru_cache(None)
 def targets(which):          # 'en' | 'en_rebank' | 'ja'
-    return list(jsonnet_lite.get_field(mpath(f'targets.{which}.jsonnet'), 'targets'))
+    return list(_table(which, 'targets', f'targets.{which}.jsonnet'))
 
 
 @functools.lru_cache(None)
 def seen_rules(which):
-    return [tuple(p) for p in jsonnet_lite.get_field(mpath(f'seen_rules.{which}.jsonnet'), 'seen_rules')]
+    return [tuple(p) for p in _table(which, 'seen_rules', f'seen_rules.{which}.jsonnet')]
 
 
 @functools.lru_cache(None)
 def unary_rules(which):      # 'en' | 'ja' | 'en_rebank'
-    if which == 'en_rebank':
-        return [tuple(p) for p in jsonnet_lite.get_field(mpath('config_rebank.jsonnet'), 'unary_rules')]
-    return [tuple(p) for p in jsonnet_lite.get_field(mpath(f'unary_rules.{which}.jsonnet'), 'unary_rules')]
+    return [tuple(p) for p in _table(which, 'unary_rules', None if which == 'en_rebank' else f'unary_rules.{which}.jsonnet')]
 
 
 @functools.lru_cache(None)
 def cat_dict_en():
-    return jsonnet_lite.get_field(mpath('cat_dict.en.jsonnet'), 'cat_dict')
+    return _table('en', 'cat_dict', 'cat_dict.en.jsonnet')
 
 
 @functools.lru_cache(None)
 def rebank_binary_rules():
-    return [tuple(p) for p in jsonnet_lite.get_field(mpath('config_rebank.jsonnet'), 'binary_rules')]
+    try:
+        return [tuple(p) for p in jsonnet_lite.get_field(mpath('config_rebank.jsonnet'), 'binary_rules')]
+    except jsonnet_lite.JsonnetError:
+        return []           # (a field no code of the library reads)
 
 
 @functools.lru_cache(None)
